@@ -38,7 +38,10 @@ ASSUMPTIONS = ["netCDF4 (the library) is trusted to read back what it wrote", "r
 NP = {"f8": numpy.float64, "f4": numpy.float32, "i8": numpy.int64, "i4": numpy.int32}
 
 
-def make_template(path, dims, variables=()):
+def make_template(path, dims, variables=(), crs=None):
+    """crs: None | "esri" (template variable carries esri_pe_string) | "cf" (esri_pe_string + grid_mapping naming a
+    variable of the file) | "cf_dim" (the grid-mapping variable has a dimension of its own) | "dangling" (grid_mapping
+    names a variable that does not exist)."""
     from netCDF4 import Dataset
 
     with Dataset(path, "w") as ds:
@@ -53,6 +56,18 @@ def make_template(path, dims, variables=()):
             names.append(name)
         t = ds.createVariable("template", "f4", tuple(names))
         t[:] = numpy.zeros([d["size"] for d in dims], dtype="f4")
+        if crs:
+            t.setncattr("esri_pe_string", 'PROJCS["NAD_1983_Albers",GEOGCS["GCS_North_American_1983"]]')
+            if crs != "esri":
+                t.setncattr("grid_mapping", "crs")
+            if crs == "cf":
+                g = ds.createVariable("crs", "i4", ())
+                g.setncattr("grid_mapping_name", "albers_conical_equal_area")
+                g.setncattr("standard_parallel", [29.5, 45.5])
+            elif crs == "cf_dim":
+                ds.createDimension("nchar", 3)
+                g = ds.createVariable("crs", "i4", ("nchar",))
+                g.setncattr("grid_mapping_name", "latitude_longitude")
         for var in variables:
             kw = {}
             if var.get("fill") is not None:
@@ -91,7 +106,9 @@ def check_write(case, rec):
         tpl = os.path.join(tmp, "template.nc")
         out = os.path.join(tmp, "out.nc")
         dims = case["dims"]
-        make_template(tpl, dims)
+        make_template(tpl, dims, crs=case.get("crs"))
+        if case.get("crs"):
+            rec.label("template_with_crs:" + case["crs"])
         shape = [d["size"] for d in dims]
         arrays = [A.make_array(r["spec"], shape) for r in case["results"]]
         producers = [A.stub(r["name"], a) for r, a in zip(case["results"], arrays)]
@@ -299,7 +316,8 @@ def write_cases(draw):
             data = draw(st.lists(st.integers(-4000, 4000).map(lambda v: v / 8.0), min_size=n, max_size=n))
         mask = draw(st.one_of(st.none(), st.none(), st.lists(st.sampled_from([0, 0, 1]), min_size=n, max_size=n)))
         results.append({"name": "R%d" % i, "spec": {"data": data, "mask": mask, "dtype": dtype}})
-    return {"dims": dims, "results": results, "again": draw(st.integers(0, 3))}
+    return {"dims": dims, "results": results, "again": draw(st.integers(0, 3)),
+            "crs": draw(st.sampled_from([None, None, None, "esri", "cf", "cf_dim", "dangling"]))}
 
 
 @st.composite
